@@ -328,16 +328,17 @@ struct Puppet12::Impl {
     }
     Bytes build_server_hello() {
         server_random = rnd(32);
+        if (cfg.server_random_tail.size() == 8) std::copy(cfg.server_random_tail.begin(), cfg.server_random_tail.end(), server_random.begin() + 24);
         if (cfg.resume.valid() && ch_sid == cfg.resume.id) { resumed_ = true; session_id = cfg.resume.id; master = cfg.resume.master; have_master = true; have_keys = false; override_master(); }
         else session_id = cfg.server_empty_session_id ? Bytes() : rnd(32);
-        ems = cfg.ems && client_offers_ems;
+        ems = cfg.ems && client_offers_ems && !cfg.server_no_extensions;
         Bytes b; put16(b, wire_ver()); app(b, server_random); b.push_back((uint8_t) session_id.size()); app(b, session_id);
         put16(b, cfg.server_suite_override >= 0 ? (unsigned) cfg.server_suite_override : cfg.suite); b.push_back(0);
         Bytes e;
         if (client_reneg) { put16(e, 0xff01); put16(e, 1); e.push_back(0); }
         if (ems) { put16(e, 0x0017); put16(e, 0); }
         if (cfg.ack_ticket_ext && client_ticket) { put16(e, 0x0023); put16(e, 0); }
-        if (!e.empty()) { put16(b, (unsigned) e.size()); app(b, e); }
+        if (!e.empty() && !cfg.server_no_extensions) { put16(b, (unsigned) e.size()); app(b, e); }
         return b;
     }
     Bytes build_certificate(bool empty) {
